@@ -71,6 +71,13 @@ inductive LoanKind where
   | excl
   deriving Repr, DecidableEq, Inhabited
 
+inductive Access where
+  | shared
+  | excl
+  | moveOut
+  | scopeOut
+  deriving Repr, DecidableEq, Inhabited
+
 /-- error classes of rustc the model distinguishes -/
 inductive Err where
   /-- two exclusive borrows -/
@@ -156,13 +163,6 @@ def mentions (x : Var) : Stmt → Bool
   | _ => false
 
 def usedLater (x : Var) (rest : List Stmt) : Bool := rest.any (mentions x)
-
-inductive Access where
-  | shared
-  | excl
-  | moveOut
-  | scopeOut
-  deriving Repr, DecidableEq, Inhabited
 
 /-- `g`: does a destructor at the end of the enclosing scope count as a later use -/
 def Info.live (i : Info) (x : Var) (rest : List Stmt) (g : Bool) : Bool :=
